@@ -18,7 +18,9 @@ PINS = [("androguard/core/dex/__init__.py", "determineNext"),
         ("androguard/core/analysis/analysis.py", "BasicBlocks.get_basic_block"),
         ("androguard/core/analysis/analysis.py", "Exceptions.get_exception"),
         ("androguard/core/analysis/analysis.py", "Exceptions.add"),
-        ("androguard/core/analysis/analysis.py", "ExceptionAnalysis.__init__")]
+        ("androguard/core/analysis/analysis.py", "ExceptionAnalysis.__init__"),
+        ("androguard/core/dex/__init__.py", "DCode.set_insn"),
+        ("androguard/core/dex/__init__.py", "EncodedMethod.reload")]
 
 
 def run(ck):
